@@ -30,7 +30,8 @@ TRUSTED_BASE = [
     "Coq 8.16.1 kernel (coqc full .vo build); vm_compute for closed witnesses",
     "Flocq 4.1.0 as installed; its theorems depend on the standard library's real-number axioms (ClassicalDedekindReals.sig_forall_dec, sig_not_dec, FunctionalExtensionality.functional_extensionality_dep, Classical_Prop.classic where listed)",
     "hand-written bit-exact models coq/Model/FloatProps.v (props/linear.rs:460-810, leq.rs, eq.rs over float views) and coq/Model/FloatSearch.v (search/{mod,branch,mode}.rs on float/mixed stores) over Model/{B64,FloatInterval,CtxFloat}.v: modelled, not verified; tied by this run's bit-for-bit differentials (families fprop_exact, fsearch_exact)",
-    "the Model-level float path (runtime_api lowering of float constraints, Model::minimize/maximize dispatch, root LP step, optimisation fast path) is NOT modelled in Coq: families fsolve_random and flower_cover are oracle-only",
+    "the Model-level float path (runtime_api lowering of float constraints, Model::minimize/maximize dispatch, root LP step, optimisation fast path) is NOT modelled in Coq: families fsolve_random, flower_cover and farith_random are oracle-only",
+    "arithmetic / element / non-linear fluent routes (family farith_random): m.add/sub/mul/div/abs/min/max/sum, array_float_minimum/maximum/element, ModelExt::elem and fluent x.mul(y) / x.div(y) trees are judged by z = f(operands) in exact rationals within tol_f = spread_f + w(s) + P(s) + 2^-40*magnitude (W = 3/2 step, P(s) = max(3 step, 1e-5(|s|+W)); spreads per operation and the error propagation through hidden auxiliary variables: docstring of vlib/fmodel.py); of these propagators only Add / Sub have a Coq model (Model/FloatProps.v prune_fadd, tied bit for bit by fprop_exact kinds add / sub); Mul, Div, Abs, Min, Max, Sum, Element on floats are NOT modelled",
     "this run's exact-rational judge vlib/fmodel.py (fractions.Fraction on f64 bit patterns) with the tolerance derived in its docstring: tol(row) = sum_{float j}|c_j|*(5*step + 1e-5*B_j) + 2^-40*(|K| + sum|c_j|*B_j)",
     "extraction ExtrOcamlBasic + ExtrOcamlNatInt, no Extract Constant of our own; ocaml/fsolve_cmd.ml glue; Rust harness harness/src/fsolve.rs (hooks H2, H5)",
 ]
@@ -40,9 +41,13 @@ ASSUMPTIONS = [
     "theorems float_values_in_bounds / float_lin_le_fixpoint_within_tol carry the magnitude hypothesis magn_b of C12F (|values| <= 2^50*step, 2^-60 <= step <= 2^60)",
     "NOT proved: numerical closeness of the binary64 accumulation in FloatLin* to the exact-rational reading beyond one pruning step (declared gap); the tolerance formula itself is validated only by this run's judge",
 ]
+RULE_ARITH = ("farith_random: 2-4 declared variables (float; ~22 % int; bounds on and off the step grid, zero-crossing, negative, single-valued, magnitudes 1e3..1e6 at precisions 1..3), "
+              "1-3 arithmetic posts chained through their result handles (add sub mul div abs min max sum fmin fmax with variable and Val operands; element posts through all three routes with a "
+              "partly out-of-range index; non-linear fluent constraints mul / div / mul+add / nested, compared with constants and with variables), 0-2 linear rows or bounds on results; divisors "
+              "keep |y| >= 1/2; every node stays below 2^45 steps in magnitude")
 RULE = ("random float/mixed models (1-4 variables, 0-4 constraints, bounds multiples of 1/2, coefficients multiples of 1/4 plus a share of non-dyadic values, precisions 1..12) "
         "posted through every route; a returned assignment must keep every float value inside its declared bounds +- step, every int value inside its domain, and satisfy every posted "
-        "constraint within tol(row); non-trivial = a solution was returned")
+        "constraint within tol(row); non-trivial = a solution was returned; " + RULE_ARITH)
 
 # ------------------------------------------------------------------------------------------------ generator
 def rand_point(rng, decls, step):
@@ -575,9 +580,53 @@ def rand_pspec(rng, info, allow_reif=True):
     if rng.random() < 0.1: b = "next(%s)" % b
     return ("%s %s %s" % (rel, b, xa)) if rng.random() < 0.3 else ("%s %s %s" % (rel, xa, b))
 
+def gen_propf_arith(rng):
+    """props-level Add / Sub (Propagators::add / sub over Var / Val / Next views): the result variable's domain is built around
+    the sum / difference of the operand boxes, shifted and resized by a few steps so that every branch of the six setter
+    calls (no change, quantise, clamp, precision tolerance, fail) is visited; 1-2 further propagators on the same variables"""
+    doms, info = rand_pdoms(rng, rng.choice([2, 2, 3]), small=rng.random() < 0.5)
+    kind = rng.choice(["add", "sub"])
+    a, b = rng.randrange(len(info)), rng.randrange(len(info))
+    def box(t): return (float(t[1]), float(t[2]))
+    (alo, ahi), (blo, bhi) = box(info[a]), box(info[b])
+    if kind == "sub": blo, bhi = -bhi, -blo
+    st = next((t[3] for t in info if t[0] == "F"), 0.5)
+    both_int = info[a][0] == "I" and info[b][0] == "I"
+    lo, hi = alo + blo, ahi + bhi
+    if math.isinf(lo) or math.isnan(lo): lo = -50.0
+    if math.isinf(hi) or math.isnan(hi): hi = 50.0
+    r = rng.random()
+    if both_int and r < 0.6:
+        l2 = int(lo) + rng.randint(-2, 2); h2 = max(l2, int(hi) + rng.randint(-2, 2))
+        doms.append("%d..%d" % (l2, h2)); info.append(("I", l2, h2))
+    else:
+        d = [0, 0, st, -st, 0.5 * st, -0.5 * st, 2.5 * st, -2.5 * st, 3.5 * st, -3.5 * st, 10 * st, -10 * st, 0.3, -0.3, 1e-5 * abs(hi)]
+        l2, h2 = lo + rng.choice(d), hi + rng.choice(d)
+        if r < 0.15: l2 = h2 = (lo + hi) / 2 + rng.choice(d)
+        elif r < 0.3: w = rng.choice([0.3, 0.5, 1.0, 1.5, 2.0, 5.0]) * st; l2 = lo + rng.random() * (hi - lo); h2 = l2 + w
+        if l2 > h2: l2, h2 = h2, l2
+        l2, h2 = _nudge(l2, rng.choice([0, 0, 1, -1])), _nudge(h2, rng.choice([0, 0, 1, -1]))
+        if l2 > h2: l2, h2 = h2, l2
+        st2 = st if rng.random() < 0.9 else rand_step(rng)
+        doms.append("F %s %s %s" % (fm.f2h(l2), fm.f2h(h2), fm.f2h(st2))); info.append(("F", l2, h2, st2))
+    s = len(info) - 1
+    def opd(i):
+        q = rng.random()
+        if q < 0.8: return "x%d" % i
+        if q < 0.9:
+            v = box(info[i])[rng.randint(0, 1)]
+            if math.isinf(v): v = 0.0
+            return "f:" + fm.f2h(v + rng.choice([0, st, 0.5 * st, -0.25])) if rng.random() < 0.7 else "i:%d" % int(math.floor(v))
+        return "next(x%d)" % i
+    ps = ["%s %s %s x%d" % (kind, opd(a), opd(b), s)]
+    for _ in range(rng.choice([0, 0, 1, 1, 2])):
+        ps.append(rand_pspec(rng, info, allow_reif=False) if rng.random() < 0.6 else "%s x%d x%d x%d" % (rng.choice(["add", "sub"]), rng.randrange(len(info)), rng.randrange(len(info)), rng.randrange(len(info))))
+    rng.shuffle(ps)
+    return " ; ".join(["|".join(doms)] + ps)
+
 def gen_propf(tier, rng):
     n = 6000 if tier == "quick" else 200000
-    out = []
+    out = [gen_propf_arith(rng) for _ in range(n // 4)]
     for _ in range(n):
         nv = rng.choice([1, 2, 2, 3, 3])
         doms, info = rand_pdoms(rng, nv)
@@ -640,6 +689,9 @@ def magn_ok(line):
 def classify_propf(line, impl, cls):
     return cls or (None if magn_ok(line) else "outside_magn")
 def corr_search(line, impl, mpart):
+    # FUEL = the model's work budget exhausted; TIMEOUT / HANG = the engine's time limit fired / the harness watchdog gave up on
+    # a propagation that creeps (the engine checks its limit only between top-level iterations): not compared further.
+    # A HANG where the model terminates within its budget IS a mismatch.
     if mpart in ("FUEL",) or impl in ("TIMEOUT",): return True
     return impl == mpart
 
